@@ -761,11 +761,13 @@ func (u *Unit) specCall(x *ast.CallExpr, env *Env, sc *specCtx) Value {
 		case "isa":
 			if !hasTypeParam(named) {
 				if _, isGeneric := named.(*types.Named); isGeneric && named.(*types.Named).TypeParams().Len() == 0 {
-					return Value{Same(u.rtype(v.Term), IntLit(int64(u.Prog.TypeIDs.ID(named)))), boolT}
+					return Value{Same(u.rtype(v.Term), IntLit(int64(u.typeID(named)))), boolT}
 				}
 			}
 			fn := dynIsName(named)
 			u.D.Fun(fn, SBool, SVal)
+			u.isaTyped(fn, v.Term)
+			u.isaOrigin(fn, named, v.Term)
 			return Value{App(fn, SBool, v.Term), boolT}
 		default:
 			fn := dynImplName(named)
@@ -794,6 +796,23 @@ func (u *Unit) specCall(x *ast.CallExpr, env *Env, sc *specCtx) Value {
 		}
 		u.D.Fun("uf_"+name, rs, ss...)
 		return Value{App("uf_"+name, rs, ts...), rt}
+	case "regexMatch":
+		// the library's regexp.MatchString as an uninterpreted pair (matches, error)
+		u.D.Fun("regex_match", SBool, SStr, SStr)
+		a, b := u.sv(x.Args[0], env, sc), u.sv(x.Args[1], env, sc)
+		return Value{App("regex_match", SBool, a.Term, b.Term), boolT}
+	case "regexErr":
+		u.D.Fun("regex_err", SErr, SStr)
+		a := u.sv(x.Args[0], env, sc)
+		return Value{App("regex_err", SErr, a.Term), errType()}
+	case "method":
+		// method("Iface.Name"): the identity of an interface method in call events of kind 2
+		lit, ok := x.Args[0].(*ast.BasicLit)
+		if !ok {
+			unsup("method() needs a string")
+		}
+		name, _ := strconv.Unquote(lit.Value)
+		return Value{methodConst(u, name), nil}
 	case "strof":
 		v := u.sv(x.Args[0], env, sc)
 		_, un := u.boxFn(SStr)
